@@ -8,12 +8,13 @@ import json, os, subprocess, sys, tempfile, shutil, concurrent.futures as cf
 ROOT = os.path.dirname(os.path.dirname(os.path.abspath(__file__)))
 ENV = dict(os.environ, GOFLAGS="-mod=mod", GOPROXY="off", GOSUMDB="off", GOTOOLCHAIN="local", GOWORK="off")
 args = sys.argv[1:]
-J = 6; only = None; props_override = None
+J = 6; only = None; props_override = None; selftest = None
 i = 0
 while i < len(args):
     if args[i] == "-j": J = int(args[i+1]); i += 2
     elif args[i] == "--only": only = args[i+1]; i += 2
     elif args[i] == "--props": props_override = args[i+1].split(","); i += 2
+    elif args[i] == "--self-test": selftest = args[i+1]; props_override = [selftest]; i += 2
     else: i += 1
 ALL = sorted(set(json.load(open(os.path.join(ROOT, "scripts", "manifest_src.json")))["checks"].keys()))
 
@@ -55,6 +56,7 @@ for kind, sub in (("mutant", "patches"), ("refactor", "refactors")):
     if not os.path.exists(idx): continue
     for e in json.load(open(idx)):
         if only and only not in e["name"]: continue
+        if selftest and kind == "mutant" and selftest not in e.get("breaks", []): continue
         jobs.append((kind, e))
 bad = 0
 with cf.ThreadPoolExecutor(max_workers=J) as ex:
